@@ -11,8 +11,8 @@
    through sign, has tangent exactly 0 at that level (tsign puts tzero there; a
    value of older levels is lifted with tangent tzero) - for every program, every
    nesting and both modes (instance of MixEval.nested_correct).
-   PROVED (C14_registered_piecewise_constant_functions_block_flow, over the reals): floor, ceil, trunc/fix, rint/round/around (ties to even), sign
-   and the six comparisons are on the list the source registers as non-differentiable (gen/GenNograd.v, regenerated from
+   PROVED (C14_registered_piecewise_constant_functions_block_flow, over the reals): floor, ceil, trunc/fix, rint/round/around (ties to even), sign,
+   the six comparisons, logical_not and the predicates that are constant on finite reals (isfinite, isnan, ...) are on the list the source registers as non-differentiable (gen/GenNograd.v, regenerated from
    numpy_vjps.py and numpy_jvps.py on every run), and away from their jump points blocking the flow IS the derivative:
    the function has derivative 0, so has every function of it, a program h(y, f y) differentiates as h(y, c) with
    c = f x frozen, and y * f y differentiates to f x (x * floor x to floor x, the example in the property).  At the
